@@ -571,6 +571,22 @@ func buildAlignPlan(prop string) (*alPlan, error) {
 			a, b = alRelatedPair(r, l23, 60)
 			pb.call(t23, a, b)
 		}
+		// indels: b = a with a block of 1-6 letters inserted or removed after a short (1-4) common prefix, long common
+		// suffix: the optimal alignment opens one gap early, while the running score is still low, and extends it
+		for k := 0; k < nr; k++ {
+			ls, t := l4, t4
+			if k%3 == 2 {
+				ls, t = l23, t23
+			}
+			x, y := alRandSeq(r, ls, 1+r.Intn(4)), alRandSeq(r, ls, 3+r.Intn(12))
+			g := alRandSeq(r, ls, 1+r.Intn(6))
+			a := append(append([]byte{}, x...), y...)
+			b := append(append(append([]byte{}, x...), g...), y...)
+			if k%2 == 0 {
+				a, b = b, a
+			}
+			pb.call(t, a, b)
+		}
 		for k := 0; k < (rmult+1)/2; k++ { // a few long ones
 			if (i+k)%2 == 0 {
 				a := alRandSeq(r, l4, 150+r.Intn(51))
